@@ -41,6 +41,10 @@ META = {
 }
 
 
+# lemmas over the contracts, checked by Lean 4 + Mathlib on every run (lean/Lemmas.lean, rverif/lemmas.py)
+LEMMAS = ["dro_safety", "weak_duality", "weak_duality_eq"]
+
+
 def SOURCES():
     return {"rsome.dro:Model.do_math": source_info(dro.Model.do_math), "rsome.dro:Model.ro_to_roc": source_info(dro.Model.ro_to_roc),
             "rsome.dro:Model.dro_to_roc": source_info(dro.Model.dro_to_roc), "rsome.dro:Model.rule_var": source_info(dro.Model.rule_var),
